@@ -124,7 +124,9 @@ Record ddesc := mkDd {
   dd_devinfo : option (list (str * divalue) * list (Z * bool));   (* EDS key -> value; BaudRate_<r> flags *)
   dd_commissioning : option (option (Z * spelling) * option Z);   (* NodeID, Baudrate (kbit/s) *)
   dd_comments : option (list str);
-  dd_objects : list odesc }.
+  dd_objects : list odesc;
+  dd_tail : bool * bool * bool }.     (* [DeviceInfo], [DeviceComissioning], [Comments] written AFTER the objects
+                                         (the sections of an INI file are an unordered collection) *)
 
 Fixpoint number_lines_from (i : Z) (ls : list str) : list (str * str) :=
   match ls with [] => [] | l :: r => (s "Line" ++ dec i, l) :: number_lines_from (i + 1) r end.
@@ -152,11 +154,20 @@ Definition comments_kv (ls : list str) : list (str * str) :=
 Definition head_comments (o : option (list str)) : list section :=
   match o with Some ls => [ (s "Comments", comments_kv ls) ] | None => [] end.
 
-Definition write_head (d : ddesc) : list section :=
-  head_fileinfo (dd_extra d) ++ head_devinfo (dd_devinfo d) ++ head_commissioning (dd_commissioning d) ++
-  head_dummy (dd_extra d) ++ head_comments (dd_comments d).
+Definition pick (b : bool) (x : list section) : list section := if b then x else [].
+Definition tail_di (d : ddesc) : bool := fst (fst (dd_tail d)).
+Definition tail_co (d : ddesc) : bool := snd (fst (dd_tail d)).
+Definition tail_cm (d : ddesc) : bool := snd (dd_tail d).
 
-Definition write (d : ddesc) : doc := write_head d ++ flat_map write_obj (dd_objects d).
+Definition write_head (d : ddesc) : list section :=
+  head_fileinfo (dd_extra d) ++ pick (negb (tail_di d)) (head_devinfo (dd_devinfo d)) ++
+  pick (negb (tail_co d)) (head_commissioning (dd_commissioning d)) ++
+  head_dummy (dd_extra d) ++ pick (negb (tail_cm d)) (head_comments (dd_comments d)).
+Definition write_tail (d : ddesc) : list section :=
+  pick (tail_di d) (head_devinfo (dd_devinfo d)) ++ pick (tail_co d) (head_commissioning (dd_commissioning d)) ++
+  pick (tail_cm d) (head_comments (dd_comments d)).
+
+Definition write (d : ddesc) : doc := write_head d ++ flat_map write_obj (dd_objects d) ++ write_tail d.
 
 (* ================================================================== what an importer has to find *)
 Definition dvalue_sem (nid : option Z) (d : dvalue) : option pyv :=
@@ -276,5 +287,6 @@ Definition nm (k : Z) (t : str) : Z * str := (k, t).
 Definition di (k : str) (v : divalue) : str * divalue := (k, v).
 Definition bd (r : Z) (b : bool) : Z * bool := (r, b).
 Definition devinfo_of (p : list (str * divalue)) (b : list (Z * bool)) : option (list (str * divalue) * list (Z * bool)) := Some (p, b).
+Definition tail_of (a b c : bool) : bool * bool * bool := (a, b, c).
 Definition comm_of (n : option (Z * spelling)) (r : option Z) : option (option (Z * spelling) * option Z) := Some (n, r).
 Definition nid_sp (n : Z) (sp : spelling) : option (Z * spelling) := Some (n, sp).
